@@ -5,6 +5,10 @@ package main
 // allocation site attribution.
 
 import (
+	"math/rand"
+
+	"verif/harness/hk"
+
 	"bufio"
 	"encoding/hex"
 	"encoding/json"
@@ -23,7 +27,7 @@ import (
 
 // expensiveBudget: a case stops executing inputs after this many expensive violations (each costs a
 // child process or seconds of page zeroing); the rest of its inputs is counted as not executed
-const expensiveBudget = 3
+const expensiveBudget = 2
 
 const rlimitData = 2 // RLIMIT_DATA on linux
 
@@ -53,13 +57,13 @@ type childSpec struct {
 	ResumeCase int        `json:"resume_case"`
 	ResumeIdx  int        `json:"resume_idx"`
 	// expensive violations (child crash, CPU hang, allocation out of proportion) already seen in the resume case
-	ResumeExpensive int `json:"resume_expensive"`
-	MemKB      uint64     `json:"mem_kb"`
-	Progress   string     `json:"progress"`
-	Result     string     `json:"result"`
-	BlobDir    string     `json:"blob_dir"`
-	Seed       int64      `json:"seed"`
-	Thorough   bool       `json:"thorough"`
+	ResumeExpensive int    `json:"resume_expensive"`
+	MemKB           uint64 `json:"mem_kb"`
+	Progress        string `json:"progress"`
+	Result          string `json:"result"`
+	BlobDir         string `json:"blob_dir"`
+	Seed            int64  `json:"seed"`
+	Thorough        bool   `json:"thorough"`
 }
 
 // records written by the child
@@ -140,7 +144,9 @@ func totalAlloc() uint64 {
 func cpuTime() time.Duration {
 	var ru syscall.Rusage
 	syscall.Getrusage(syscall.RUSAGE_SELF, &ru)
-	return time.Duration(ru.Utime.Nano() + ru.Stime.Nano())
+	// user time only: a hang is a loop in user space; kernel time (page zeroing of a large allocation on a
+	// loaded machine) is accounted by the allocation oracle, not by this one
+	return time.Duration(ru.Utime.Nano())
 }
 
 func allocBound(inputLen int) uint64 { return allocSlack + allocPerByte*uint64(inputLen) }
@@ -154,7 +160,7 @@ type callInfo struct {
 	idx     int
 	data    []byte
 	cpu0    atomic.Int64 // process CPU time (ns) when the current call began
-	marker  string // function name expected on the stack of the goroutine under test
+	marker  string       // function name expected on the stack of the goroutine under test
 }
 
 var curCall atomic.Pointer[callInfo]
@@ -288,37 +294,75 @@ func profSnapshot() map[[32]uintptr]int64 {
 // allocSiteSince returns the site of the stack that allocated most since the last snapshot
 func allocSiteSince() (string, []string) {
 	cur := profSnapshot()
-	var best [32]uintptr
-	var bestN int64 = -1
+	type cand struct {
+		k [32]uintptr
+		d int64
+	}
+	var cands []cand
 	for k, v := range cur {
-		d := v - profBase[k]
-		if d > bestN {
-			best, bestN = k, d
+		if d := v - profBase[k]; d > 0 {
+			cands = append(cands, cand{k, d})
 		}
 	}
 	profBase = cur
-	if bestN <= 0 {
-		return "unknown-site", nil
-	}
-	var pcs []uintptr
-	for _, pc := range best {
-		if pc == 0 {
+	sort.Slice(cands, func(i, j int) bool { return cands[i].d > cands[j].d })
+	var first []string
+	for i, c := range cands {
+		if i >= 40 {
 			break
 		}
-		pcs = append(pcs, pc)
-	}
-	var names []string
-	it := runtime.CallersFrames(pcs)
-	for {
-		f, more := it.Next()
-		if f.Function != "" {
-			names = append(names, f.Function)
+		var pcs []uintptr
+		for _, pc := range c.k {
+			if pc == 0 {
+				break
+			}
+			pcs = append(pcs, pc)
 		}
-		if !more {
-			break
+		var names []string
+		ergo := false
+		it := runtime.CallersFrames(pcs)
+		for {
+			f, more := it.Next()
+			if f.Function != "" {
+				names = append(names, f.Function)
+				if strings.HasPrefix(f.Function, "ergo.services/ergo/") {
+					ergo = true
+				}
+			}
+			if !more {
+				break
+			}
+		}
+		if first == nil {
+			first = names
+		}
+		// the allocation we look for happened inside the code under test
+		if ergo {
+			return siteOf(names), names
 		}
 	}
-	return siteOf(names), names
+	return "unknown-site", first
+}
+
+// cheap deterministic PRNG source (no allocation, no seeding cost): splitmix64
+type sm64 struct{ s uint64 }
+
+func (r *sm64) Uint64() uint64 {
+	r.s += 0x9E3779B97F4A7C15
+	z := r.s
+	z = (z ^ (z >> 30)) * 0xBF58476D1CE4E5B9
+	z = (z ^ (z >> 27)) * 0x94D049BB133111EB
+	return z ^ (z >> 31)
+}
+func (r *sm64) Int63() int64    { return int64(r.Uint64() >> 1) }
+func (r *sm64) Seed(seed int64) { r.s = uint64(seed) }
+
+// inputRng: PRNG for the idx-th input of a case; a function of VERIF_SEED, case id and idx
+func inputRng(caseID string, idx int) *rand.Rand {
+	base := hk.Hash64("c16", caseID) ^ uint64(hk.Seed())*0x9E3779B97F4A7C15
+	src := &sm64{s: base + uint64(idx)*0xD1B54A32D192ED03}
+	src.Uint64()
+	return rand.New(src)
 }
 
 // outcome classes -----------------------------------------------------------------------
@@ -407,6 +451,16 @@ func violation(v vrec) {
 		v.What = "(repeat) " + trunc(v.What, 120)
 	}
 	writeRec(v)
+}
+
+// leaveAfterExpensive: an allocation out of proportion leaves this process with a bloated heap mapping, so
+// that a later out-of-memory death could not be attributed to the input in use. The child flushes the
+// partial results of the case and exits; the parent resumes with a fresh child after this input.
+func leaveAfterExpensive(caseID string, a *agg) {
+	writeRec(a.rec(caseID))
+	writeRec(vrec{T: "v", Case: caseID, Idx: -1, Sig: "", Fatal: true, What: "child left after an expensive violation"})
+	resFile.Close()
+	os.Exit(8)
 }
 
 // child main ----------------------------------------------------------------------------
